@@ -2,6 +2,8 @@
 
 package client
 
+import "github.com/plgd-dev/go-coap/v3/message/pool"
+
 // Introspection for the verification harness (/verif). Compiled only with -tags verif.
 
 // VerifTokenTableBarrier holds the write lock of the token-handler table: it calls enter
@@ -14,4 +16,12 @@ func (cc *Conn) VerifTokenTableBarrier(key uint64, enter func(), release <-chan 
 		<-release
 		return old, !ok
 	})
+}
+
+// VerifSetProcessReceivedMessage installs the function the receive loop calls for every received message
+// (what Config.ProcessReceivedMessage is meant to configure). For the verification harness (/verif): it wraps
+// the receive path to recover panics and to order the caller's release of a handed-over message before the
+// receive path's own clean-up. Must be called before the first request is sent.
+func (cc *Conn) VerifSetProcessReceivedMessage(f func(req *pool.Message, cc *Conn, handler HandlerFunc)) {
+	cc.processReceivedMessage = f
 }
